@@ -1,4 +1,4 @@
-import JadeModel.Proofs.SystemLive4Defs
+import JadeModel.Proofs.SystemLive1Defs
 
 set_option linter.unusedSimpArgs false
 
